@@ -1,4 +1,8 @@
 """C01 — every session is plugged in and unplugged exactly once; run() terminates."""
+import json
+import os
+import subprocess
+import sys
 import time
 
 from harness.core import z, coq_bool, coq_opt, coq_str
@@ -12,15 +16,23 @@ CORR_HEADER = ("From Coq Require Import ZArith QArith List String.\n"
                "From ACN Require Import Base.Num Model.EVSE Model.SimSkel Model.SimIface.\nImport ListNotations.\n"
                "Open Scope string_scope.\nOpen Scope Z_scope.\n")
 CHECK_FN = "check_c01"
-SHARD = 20
-RULE = ("1-8 stations of mixed EVSE classes (registration order != id order), optional constraints, 0-25 sessions built per "
-        "station without overlap with back-to-back reuse and simultaneous arrivals/departures each forced with probability 1/2, "
-        "optional extra RecomputeEvents, max_recompute in {None,1,2,5}, period in {1,5,15}, schedulers: empty / zero / random "
-        "valid scripted schedules / UncontrolledCharging / SortedSchedulingAlgo(FCFS) (their returned schedules are replayed to the "
-        "model); a malformed stream (unknown station, overlap, departure<=arrival, estimate<=arrival, duplicate id) compares the "
-        "exception class and the event history at the raise; distinct = distinct (stations, sessions, recomputes, max_recompute, "
-        "scheduler kind/seed); a case is skipped as ambiguous when a remaining demand is within 1e-7 of the 1e-3 threshold or the "
-        "raising event shares its (timestamp, type) with another event (heap order inside a tie group is C11's business)")
+SHARD = 19
+RULE = ("1-8 stations of mixed EVSE classes (registration order != id order; id styles: zero-padded, S-9/S-10/S-11, numeric-looking, "
+        "mixed case, falsy '' and '0'), optional constraints, 0-25 sessions built per station without overlap with back-to-back reuse and "
+        "simultaneous arrivals/departures each forced with probability 1/2 (10% lockstep sets), optional extra RecomputeEvents, "
+        "max_recompute in {None,0,1,2,3,5}, period in {0.5,1,2.5,5,7,15}, int / float / numpy-typed session fields and schedules, "
+        "schedulers: empty / zero / random valid scripted schedules / UncontrolledCharging / SortedSchedulingAlgo(FCFS) (returned "
+        "schedules are replayed to the model). Families, each compared with the model of the input alone: plain; reuse (a prelude "
+        "simulation is first run on the SAME network, EventQueue and scheduler objects); twin (a second simulator with the same "
+        "station ids / constraint names but other values is built first and run to completion inside one scheduler call); resume "
+        "(the scheduler raises Exception / BaseException subclasses at chosen calls and run() is called again); netupdate (constraints "
+        "changed in place between scheduler calls); sharedid (one session id on two stations); 15% malformed (unknown station, overlap, "
+        "departure<=arrival, estimate<=arrival, duplicate (id, station)); ~10 valid cases are re-run in a second process with another "
+        "PYTHONHASHSEED. The recording hooks also check: network.get_ev / active_station_ids, no current on a vacant station, the "
+        "event list given to EventQueue and the schedule dict returned by the scheduler are not modified, objects handed out earlier "
+        "do not change later. distinct = distinct (stations, sessions, recomputes, max_recompute, scheduler kind/seed, family, id style); "
+        "ambiguous (skipped by the model comparison, still monitored) = a remaining demand within 1e-7 of the 1e-3 threshold (incl. the "
+        "deliberate on-threshold / one-ulp sessions) or a raising plugin that shares its timestamp with another plugin (C11)")
 ASSUMPTIONS = ["the pending queue is modelled as a stably sorted list; CPython heapq order inside groups of equal (timestamp, precedence) "
                "is canonicalised on both sides (C11 proves heapq)",
                "schedulers are modelled as arbitrary functions of the view; in the correspondence the schedules returned by the real "
@@ -42,50 +54,99 @@ def tie_ambiguous(inp, impl):
     return last[1] == "Plugin" and len(same) > 1
 
 
-def make_case(inp):
-    impl = S.run_impl(inp)
+def case_of(inp, impl):
     amb = impl["min_margin"] < 1e-7 or tie_ambiguous(inp, impl) or impl.get("stage") == "build"
     coq = ("(mkC01 %s\n  %s %s\n  %s %s %s)" % (
         S.input_coq(inp, impl), coq_opt(impl["error"], coq_str), S.hist_coq(impl["hist"]), S.occ_coq(impl["occ"]),
         z(impl["iteration"]), coq_bool(impl["qempty"])))
-    kind = ("malformed/" + inp["malformed"]) if inp["malformed"] else ("valid/" + inp["sched"]["kind"])
+    fam = inp.get("family", "plain")
+    kind = ("malformed/" + inp["malformed"]) if inp["malformed"] else ("sharedid/" + inp["sched"]["kind"]) if inp.get("shared_ids") else ("%s/%s" % ("valid" if fam == "plain" else fam, inp["sched"]["kind"]))
     slim = dict(error=impl["error"], hist=impl["hist"], occ=impl["occ"], iteration=impl["iteration"], qempty=impl["qempty"],
-                final_occ=impl["final_occ"], n_calls=len(impl["calls"]))
+                final_occ=impl["final_occ"], n_calls=len(impl["calls"]), rates=impl["rates"], flags=impl.get("flags", []),
+                n_raised=impl.get("n_raised", 0))
     return dict(input=inp, impl=slim, coq=coq, ambiguous=amb, kind=kind,
-                sig=[inp["net"], inp["sessions"], inp["recomputes"], inp["max_recompute"], inp["sched"]],
+                sig=[inp["net"], inp["sessions"], inp["recomputes"], inp["max_recompute"], inp["sched"], fam, inp.get("idstyle")],
                 nontrivial=len(inp["sessions"]) > 0)
 
 
+def make_cases(inp):
+    """one case per simulation: the twin family yields two"""
+    impl = S.run_impl(inp)
+    out = [case_of(inp, impl)]
+    if "twin_trace" in impl:
+        out.append(case_of(dict(inp["twin"], family="twin"), impl["twin_trace"]))
+    return out
+
+
+FAMILIES = [("reuse", 0.08), ("twin", 0.05), ("resume", 0.08), ("netupdate", 0.04)]
+
+
 def gen_cases(rng, n, tier):
+    specs = [(rng.choice(MALFORMED), None) for _ in range((n * 3) // 20)]
+    for fam, frac in FAMILIES:
+        specs += [(None, fam)] * max(1, int(n * frac))
+    specs += [(None, None)] * max(0, n - len(specs) - sum(1 for _, f in specs if f == "twin"))   # a twin yields two cases
+    rng.shuffle(specs)
     cases = []
-    n_mal = n // 5
-    for i in range(n):
-        mal = rng.choice(MALFORMED) if i >= n - n_mal else None
-        cases.append(make_case(S.gen_input(rng, tier, malformed=mal)))
+    for mal, fam in specs:
+        cases += make_cases(S.gen_input(rng, tier, malformed=mal, family=fam,
+                                        shared_ids=(mal is None and rng.random() < 0.12)))
+    hash_family(rng, cases)
     return cases
 
 
+def hash_family(rng, cases):
+    """the same inputs in a second process with another PYTHONHASHSEED must give the same traces"""
+    from harness import hashrun
+    picked = [c for c in cases if c["input"].get("family") == "plain" and not c["input"]["malformed"]
+              and c["impl"]["error"] is None and len(c["input"]["sessions"]) >= 3][:10]
+    if not picked:
+        return
+    env = dict(os.environ, PYTHONHASHSEED=str(rng.randrange(1, 4000000)))
+    try:
+        p = subprocess.run([sys.executable, "-m", "harness.hashrun"], input=json.dumps([c["input"] for c in picked]),
+                           capture_output=True, text=True, env=env, timeout=300)
+        theirs = json.loads(p.stdout)
+    except Exception as e:      # noqa
+        picked[0]["hash_flag"] = "second process failed: %r" % (e,)
+        return
+    for c, d in zip(picked, theirs):
+        mine = json.loads(json.dumps(hashrun.digest(S.run_impl(json.loads(json.dumps(c["input"]))))))
+        if mine != d:
+            c["hash_flag"] = "trace differs in a process with PYTHONHASHSEED=%s" % env["PYTHONHASHSEED"]
+        c["kind"] += "+hashseed"
+
+
 def monitor(case):
-    if case.get("ambiguous"):
-        return None
+    if case.get("hash_flag"):
+        return case["hash_flag"]
     return S.monitor_c01(case["input"], case["impl"])
 
 
 def search(rng, budget_s, broken):
     t0 = time.time()
+    fams = [None, None, None, "reuse", "twin", "resume", "netupdate"]
     while time.time() - t0 < budget_s:
-        inp = S.gen_input(rng, "quick")
+        inp = S.gen_input(rng, "quick", family=rng.choice(fams), shared_ids=rng.random() < 0.3)
         impl = S.run_impl(inp)
-        r = S.monitor_c01(inp, impl)
-        if r and impl["min_margin"] >= 1e-7:
-            inp, impl, r = shrink(inp, impl, r)
+        r = full_monitor(inp, impl)
+        if r:
+            if S.monitor_c01(inp, impl):
+                inp, impl, r = shrink(inp, impl, r)
             return dict(case=inp, impl=dict(error=impl["error"], hist=impl["hist"], occ=impl["occ"],
                                             iteration=impl["iteration"], qempty=impl["qempty"]), why=r)
     return None
 
 
+def full_monitor(inp, impl):
+    r = S.monitor_c01(inp, impl)
+    if not r and "twin_trace" in impl:
+        r = S.monitor_c01(dict(inp["twin"], family="twin"), impl["twin_trace"])
+    return r
+
+
 def shrink(inp, impl, why):
-    """drop sessions / recomputes / stations while the monitor still fails"""
+    """drop sessions / recomputes while the monitor still fails"""
     changed = True
     while changed:
         changed = False
@@ -105,5 +166,6 @@ def shrink(inp, impl, why):
 
 def replay(w):
     inp = w["case"]
-    impl = S.run_impl(inp)
-    return S.monitor_c01(inp, impl)
+    if inp.get("family") == "twin" and "twin" not in inp:      # the nested twin on its own
+        inp = dict(inp, family="plain")
+    return full_monitor(inp, S.run_impl(inp))
